@@ -1140,7 +1140,7 @@ pub fn explicit_cells(seed: u64) -> Vec<Scenario> {
     let tokens = body_tokens(&lines);
     let pg = |code: i32| PagerSetup { names: vec!["less".into(), "mypager".into(), "more".into(), "most".into(), "otherpager".into()], mode: "gate".into(), exit_code: code, less_version: "less 581.2 (PCRE2 regular expressions)".into() };
     // A. pager selection
-    let values: &[(&str, &str)] = &[("other-quoted-args", "mypager --opt 'x y' \"-z\""), ("less-quoted-args", "less '-F' \"-X\""), ("less-bare", "less"), ("less-args", "less -FX"), ("less-fullpath", "@BIN@/less"), ("less-fullpath-args", "@BIN@/less -X"), ("other", "mypager"), ("other-args", "mypager --opt x"), ("other-fullpath", "@BIN@/otherpager"), ("more", "more"), ("most", "most"), ("missing", "nosuchpager")];
+    let values: &[(&str, &str)] = &[("other-arg-named-delta", "mypager --log /x/delta.log"), ("other-arg-word-delta", "otherpager delta"), ("less-arg-named-delta", "less --log-file=/x/delta"), ("other-quoted-args", "mypager --opt 'x y' \"-z\""), ("less-quoted-args", "less '-F' \"-X\""), ("less-bare", "less"), ("less-args", "less -FX"), ("less-fullpath", "@BIN@/less"), ("less-fullpath-args", "@BIN@/less -X"), ("other", "mypager"), ("other-args", "mypager --opt x"), ("other-fullpath", "@BIN@/otherpager"), ("more", "more"), ("most", "most"), ("missing", "nosuchpager")];
     for source in ["--pager", "delta.pager", "DELTA_PAGER", "BAT_PAGER", "PAGER", "default"] {
         for (vclass, value) in values {
             if source == "default" && *vclass != "less-bare" {
